@@ -90,15 +90,15 @@ META = {
                 note="Recorded KNOWN-FINDINGs: rend fails for the smallest legal base2 gram sizes; a duplicate of an already delivered memo is delivered again; a signed gram ahead of its zeroth gram is dropped. Counter-based memo ids, fixed ed25519 seeds."),
     "C21": dict(cat="fault_enumeration", eng="E1 full answer tree over scripted transport / fake datagram socket", ref="3 (memo group)",
                 tech="complete enumeration of the tree of transport answers (accept all / 0 / 1 / len-1 bytes, would-block, unreachable errnos) to the first 4/6 sends, real Memoer, udp and uxd PeerMemoer transmit servicing, per-destination ideal-sender oracle",
-                text="6 layouts of 2-3 grams to 1-2 destinations x {Memoer with scripted send, udp.PeerMemoer and uxd.PeerMemoer over a fake datagram socket} x {greedy service(), serviceAllOnce()}: every answer history of the first 4 (quick) / 6 (thorough) sends, then all-accepting sends to a horizon; every send must offer exactly the unsent rest of the oldest unfinished gram of its destination; at the horizon every gram was accepted in full or dropped by an unreachable answer and the buffers are empty. Plus each of the 10 unreachable errnos at each of the first 3 sends.",
+                text="6 layouts of 2-3 grams to 1-2 destinations x {Memoer with scripted send, udp.PeerMemoer and uxd.PeerMemoer over a fake datagram socket} x {greedy service(), serviceAllOnce()} (also with one bytearray object queued for several destinations): every answer history of the first 4 (quick) / 6 (thorough) sends, then all-accepting sends to a horizon; every send must offer exactly the unsent rest of the oldest unfinished gram of its destination; at the horizon every gram was accepted in full or dropped by an unreachable answer and the buffers are empty. Plus each of the 10 unreachable errnos at each of the first 3 sends.",
                 note="Trusted: the fake datagram socket (sendto answers only). Scheduling between different destinations is not prescribed by the oracle."),
     "C22": dict(cat="fault_enumeration", eng="E3 mutation enumeration", ref="3 (memo group)",
                 tech="exhaustive enumeration of all short datagrams, alphabet strings, every single-byte replacement and every truncation of valid signed/unsigned grams, and crafted gram sets with numbers at and beyond the count, against real Memoer/AuthMemoer receive servicing",
-                text="Receivers with authic False and True: all byte strings <= 2 bytes, all strings of length 3-4 over a 12-byte alphabet, all 255 replacements of every byte and every truncation of every gram of valid memos (4 zeroth codes x base64/base2 headers, 2 and 3 grams), crafted self-signed sets with count 0..3 and gram numbers up to 2^24-1, a mutated copy of every gram position delivered with all intact grams in all (n+1)! orders, and every delivery sequence up to length 5/6 over the four grams of two memos that two signers send under one memo id: servicing must not raise; an authic receiver delivers only memos all of whose grams verify for the claimed signer and equal the original.",
+                text="Receivers with authic False and True: all byte strings <= 2 bytes, all strings of length 3-4 over a 12-byte alphabet, all 255 replacements of every byte and every truncation of every gram of valid memos (4 zeroth codes x base64/base2 headers, 2 and 3 grams), crafted self-signed sets with count 0..3 and gram numbers up to 2^24-1, a mutated copy of every gram position delivered with all intact grams in all (n+1)! orders, and every delivery sequence up to length 5/6 over the four grams of two memos that two signers send under one memo id, datagram sources as strings or (host, port) duples, transferable signer ids checked against a receiver keep with the right / a rotated / a missing / a foreign key: servicing must not raise; an authic receiver delivers only memos all of whose grams verify for the claimed signer and equal the original.",
                 note="A reference gram builder written from the wire format must reproduce rend() byte for byte (asserted every run). Fixed ed25519 seeds; counter-based memo ids."),
     "C23": dict(cat="model_checking", eng="E2 BFS over real LMDB", ref="3 (store group)",
                 tech="explicit-state BFS over push/pull/extend/update/remove/clear/reopen/resync histories of the real Durq and Dusq on a real LMDB environment with a list / ordered-set model in lock step",
-                text="All histories to depth 5 (quick) / 7 (thorough) over values {A,B} in three dataclass flavours; states = (memory content, durable (ordinal, value) list, stale flag); after every operation the return value, list(q), len, count, the durable copy read straight through lmdb, sdb.get, cnt and stale are compared with the model; reopen must restore exactly the model's content.",
+                text="All histories to depth 5 (quick) / 7 (thorough) over values {A,B} in three dataclass flavours; states = (memory content, durable (ordinal, value) list, stale flag); after every operation the return value, list(q), len, count, the durable copy read straight through lmdb, sdb.get, cnt and stale are compared with the model; reopen must restore exactly the model's content. Queues may already hold values (with duplicates) when they first become durable; a Dusq keeps its own copies of the values it was built from. The initial state is judged too.",
                 note="Crash points are orderly close/reopen between operations; torn LMDB pages are LMDB's guarantee. Sandbox under /dev/shm, removed afterwards."),
     "C24": dict(cat="model_checking", eng="E2 BFS over real LMDB", ref="3 (store group)",
                 tech="explicit-state BFS over put/pin/add/pop/rem histories of the real Suber, IoSuber and IoSetSuber on a real LMDB environment with a dict / dict-of-lists / dict-of-ordered-sets model; every other key re-read after every operation",
@@ -106,27 +106,27 @@ META = {
                 note="The ordinal-suffix key collision of the insertion-ordered stores is a recorded KNOWN-FINDING (14 keys); after a violation the model follows the store so one defect is not reported as a cascade."),
     "C25": dict(cat="model_checking", eng="E3/E2 product enumeration of forests x transition histories", ref="3 (C25)",
                 tech="exhaustive enumeration of every ordered box forest up to a size, every first box and every transition history up to 3 cycles (with bounded failing preconditions) on the real Boxer.run generator, action traces compared with a reference computed from the forest alone",
-                text="All ordered forests with 1..5 (quick) / 6 (thorough) boxes and depth <= 3 x every first box x every history of 0..3 cycles (no goact fires, or a box of the active pile fires to any destination: sibling, cousin, ancestor, descendant, self, other tree) with all preconditions met, or with 1 (thorough: up to 2) failing precondition, then the end flag: per cycle the exacts/rexacts/renacts/enacts trace must be exits bottom-up, re-exits bottom-up, re-enters top-down, enters top-down for exactly the reference boxes; two acts per context run in declaration order; a refused transition runs nothing and keeps the active box; ending exits the active pile once, bottom-up.",
+                text="All ordered forests with 1..5 (quick) / 6 (thorough) boxes and depth <= 3 x every first box x every history of 0..3 cycles (no goact fires, or a box of the active pile fires to any destination: sibling, cousin, ancestor, descendant, self, other tree) with all preconditions met, or with 1 (thorough: up to 2) failing precondition, then the end flag: per cycle the exacts/rexacts/renacts/enacts trace must be exits bottom-up, re-exits bottom-up, re-enters top-down, enters top-down for exactly the reference boxes; two acts per context run in declaration order; a refused transition runs nothing and keeps the active box; ending exits the active pile once, bottom-up; the same Boxer run a second time after its end behaves like a fresh one.",
                 note="Boxes are built by hand (Box, unders, goacts as plain callables); the builder verbs and Need/Act machinery are not exercised. Reference never reads Box.pile."),
     "C26": dict(cat="exploration", eng="E3 full enumeration", ref="3 (C26)",
                 tech="exhaustive enumeration of small input domains against arithmetic written from the statement",
-                text="Every integer below 2^18/2^22 x lengths 1..6 plus power-of-64 boundaries; every Base64 string up to length 3/4; every byte string up to 2/3 bytes x admissible sextet counts, and every sextet count 3..12 with all 256 values of the last needed byte over 4 fill patterns and 0-2 surplus bytes.",
+                text="Every integer below 2^18/2^22 x lengths 1..6 plus power-of-64 boundaries; every Base64 string up to length 3/4; every byte string up to 2/3 bytes x admissible sextet counts, and every sextet count 3..12 with all 256 values of the last needed byte over 4 fill patterns and 0-2 surplus bytes; after every code its neighbours sharing leading octets are converted in the same process.",
                 note="l=0 excluded (documented empty soft part)."),
     "C27": dict(cat="model_checking", eng="E2 BFS", ref="3 (C27)",
                 tech="explicit-state BFS of the full reachable state graph of the real Namer with a dict-pair model in lock step",
-                text="The reachable graph over names {a,b,ab,'',None} x addrs {x,y,xy,'',None} (substrings of one another) and all 5 operations is closed (34 states); inverse/injective invariant in every state; rejected operations must not mutate.",
+                text="The reachable graph over names {a,b,ab,'',None} x addrs {x,y,xy,'',None} (substrings of one another) and all 5 operations is closed (34 states); inverse/injective invariant in every state; rejected operations must not mutate; every pair of constructor entries (conflicting or not) must yield the registry the model yields or be rejected whole.",
                 note="Domains of 3 names / 3 addresses; also from constructor-seeded states."),
     "C28": dict(cat="exploration", eng="E3 term enumeration", ref="3 (C28)",
                 tech="exhaustive enumeration of field values (terms of bounded size) x shapes x formats, round-trip equality",
-                text="8 dataclass shapes (flat, frozen, tyme-stamped, nested 1-2 levels) x JSON/CBOR/MGPK x every term of <= 3/4 nodes over 15 atoms; for the nested shapes also every sequence of <= 3/4 objects whose nested field is absent / present / present with None inside, each sequence judged in its own pristine forked interpreter.",
+                text="8 dataclass shapes (flat, frozen, tyme-stamped, nested 1-2 levels) x JSON/CBOR/MGPK x every term of <= 3/4 nodes over 15 atoms; for the nested shapes also every sequence of <= 3/4 objects whose nested field is absent / present / present with None inside, with rejected (malformed) inputs in between, each sequence judged in its own pristine forked interpreter; a nested data object without fields; every serialisation is read twice, the first result edited in place before the second read.",
                 note="Common representable domain only (no tuples/bytes/NaN/non-str keys)."),
     "C29": dict(cat="exploration", eng="E3 product enumeration in a sandbox", ref="3 (C29)",
                 tech="exhaustive product enumeration of Filer flag combinations x relative names/bases (with dotted segments) x short open/reopen/close histories on the real Filer in a sandbox directory tree, recursive snapshot diff around every step",
-                text="temp x clean x filed x extensioned x reuse x clear (2^6) x 8 names x 5 bases x history shapes {init-close, init-reopen-close, direct remake() with relative / absolute base / absolute name, reopen with the temp flag flipped, openFiler context manager with and without a flip inside, FilerDoer enter/exit} (thorough: each followed by a second reopen/close round); a foreign sibling file is planted next to every path the Filer opens; Filer's class-level directories are redirected into a sandbox under /dev/shm with sentinel files in every ancestor and sibling directory: everything created or deleted must lie inside the head directory (the instance's mkdtemp directory when temp); every clearing step (close(clear=True), reopen(clear=True), openFiler exit, FilerDoer.exit) deletes only at or below the path the instance had, leaves nothing there, and leaves no mkdtemp directory of the instance.",
+                text="temp x clean x filed x extensioned x reuse x clear (2^6) x 9 names x 6 bases (incl. '..') x history shapes {init-close, init-reopen-close, direct remake() with relative / absolute base / absolute name, reopen with the temp flag flipped, openFiler context manager with and without a flip inside, FilerDoer enter/exit, also with the filer closed by somebody else in between} (thorough: each followed by a second reopen/close round); a foreign sibling file is planted next to every path the Filer opens; Filer's class-level directories are redirected into a sandbox under /dev/shm with sentinel files in every ancestor and sibling directory: everything created or deleted must lie inside the head directory (the instance's mkdtemp directory when temp); every clearing step (close(clear=True), reopen(clear=True), openFiler exit, FilerDoer.exit) deletes only at or below the path the instance had, leaves nothing there, and leaves no mkdtemp directory of the instance.",
                 note="Runs as root on tmpfs, so the permission-driven fallback to the alternate head is watched but not exercised. Left-over mkdtemp directories of temp Filers are a recorded KNOWN-FINDING (2 keys). Intermediate directories of persistent Filers may stay (shared)."),
     "C30": dict(cat="model_checking", eng="E1-sched + virtual asyncio loop, differential", ref="3 (C30), 2 (virtual loop)",
                 tech="stateless exploration incl. all asyncio ready-queue orders on a hand-stepped event loop; do() vs ado() differential",
-                text="Each program is run with do() and with ado() on a virtual BaseEventLoop with 0..2 spinning competitor tasks; the explorer also picks which ready handle runs next; limit and start tyme are given to the constructor or to do()/ado(); traces, tymes, done flags must be identical.",
+                text="Each program is run with do() and with ado() on a virtual BaseEventLoop with 0..2 spinning competitor tasks; the explorer also picks which ready handle runs next; limit and start tyme are given to the constructor or to do()/ado(), also followed by a second run without arguments; traces, tymes, done flags must be identical.",
                 note="Trusted: the virtual loop (BaseEventLoop subclass) is asyncio's own Task/Handle machinery with time() and the selector removed."),
 }
 
